@@ -31,7 +31,7 @@ const GRID_CELLS_PER_STATE: u64 = 256 * 70 * 3;
 pub static INFO: PropInfo = PropInfo {
     id: "C07",
     level: "fault_enumeration",
-    rule: "one evaluation = one hostile datagram (or token byte string) handed to a live endpoint through a guarded call. ENUMERATED sub-space (exhaustive=true refers to this grid only, split over the shards by prefix byte and enumerated completely on every engine): all 256 prefix bytes x lengths {0..=64, 1077, 1078, 1079, 1399, 1400} x body {zeros, 0xFF, the tail of a genuine not-yet-presented datagram of that very session} x 7 protocol states (server: unknown address, half-open address, connected address; client: requesting, responding, connected, disconnected); a cell that happens to be byte-identical to the genuine datagram is skipped. Every cell must return normally with result None and an identical observable snapshot (client ids, addresses, user data, time since last received packet of every client, half-open set; client state, reason, time since last packet); after every row the connected pair must still exchange one payload each way, after every prefix byte all half-open handshakes must still complete and a fresh token must still connect from the 'unknown' address. SAMPLED: 1-3 bit flips, truncations, extensions of genuine datagrams of all seven kinds, genuine datagrams presented from other sessions' addresses, packets sealed under another key / protocol id, requests with a wrong version / protocol / expired / foreign-key / wrong-host token, random strings (all non-authentic by construction: full oracle); packets of every kind sealed under the session's own keys with boundary sequence numbers incl. 2^64-1, replays, padded requests (authentic or replayed: only 'returns normally', also for the API calls that follow); serialized tokens with address count 0/33/2^32-1, address type 0/3, expire<create, timeout<0, bit flips, truncations -> ConnectToken::read -> NetcodeClient::new -> update/process_packet -> request to a server. Generator 'reflect' hands a genuine datagram back to the endpoint that produced it (server-to-client datagrams to the server from that client's address, client-to-server ones to that client); a quarter of the clients hold a token made by the library's own ConnectToken::generate. Non-trivial = the datagram reached a live endpoint in the named state and the oracle was evaluated; distinct = (state, generator, datagram hash).",
+    rule: "one evaluation = one hostile datagram (or token byte string) handed to a live endpoint through a guarded call. ENUMERATED sub-space (exhaustive=true refers to this grid only, split over the shards by prefix byte and enumerated completely on every engine): all 256 prefix bytes x lengths {0..=64, 1077, 1078, 1079, 1399, 1400} x body {zeros, 0xFF, the tail of a genuine not-yet-presented datagram of that very session} x 7 protocol states (server: unknown address, half-open address, connected address; client: requesting, responding, connected, disconnected); a cell that happens to be byte-identical to the genuine datagram is skipped. Every cell must return normally with result None and an identical observable snapshot (client ids, addresses, user data, time since last received packet of every client, half-open set; client state, reason, time since last packet); after every row the connected pair must still exchange one payload each way, after every prefix byte all half-open handshakes must still complete and a fresh token must still connect from the 'unknown' address. SAMPLED: 1-3 bit flips, truncations, extensions of genuine datagrams of all seven kinds, genuine datagrams presented from other sessions' addresses, packets sealed under another key / protocol id, requests with a wrong version / protocol / expired / foreign-key / wrong-host token, random strings (all non-authentic by construction: full oracle); packets of every kind sealed under the session's own keys with boundary sequence numbers incl. 2^64-1, replays, padded requests (authentic or replayed: only 'returns normally', also for the API calls that follow); serialized tokens with address count 0/33/2^32-1, address type 0/3, expire<create, timeout<0, bit flips, truncations -> ConnectToken::read -> NetcodeClient::new -> update/process_packet -> request to a server. Generator 'stale-denied' hands a connected (or disconnected) client a ConnectionDenied sealed under its own token's server-to-client key with a server-global sequence (what a full server sent before a slot became free, delivered late). Generator 'reflect' hands a genuine datagram back to the endpoint that produced it (server-to-client datagrams to the server from that client's address, client-to-server ones to that client); a quarter of the clients hold a token made by the library's own ConnectToken::generate. Non-trivial = the datagram reached a live endpoint in the named state and the oracle was evaluated; distinct = (state, generator, datagram hash).",
     assumptions: &[
         "ChaCha20-Poly1305 is unforgeable: a datagram that differs from every genuine one in a sealed or bound bit is not authentic",
         "replays of genuine datagrams and packets sealed under the session's own keys are only required to return normally here (their effect belongs to C04/C18)",
